@@ -41,6 +41,9 @@ type catchEvent struct {
 	awaitingActions []chan IAction
 	once            sync.Once
 	satisfier       *logic.CatchEventSatisfier
+	// running is set once the node's goroutine drains mch; until then nobody
+	// listens and events are dropped instead of piling up in the inbox
+	running atomic.Bool
 }
 
 func newCatchEvent(wr *wiring, element *schema.CatchEvent) (evt *catchEvent, err error) {
@@ -94,6 +97,11 @@ func (evt *catchEvent) run(ctx context.Context, sender tracing.ISenderHandle) {
 }
 
 func (evt *catchEvent) ConsumeEvent(ev event.IEvent) (result event.ConsumptionResult, err error) {
+	if !evt.running.Load() {
+		// not reached yet: nothing listens here, and nothing would drain the inbox
+		result = event.Consumed
+		return
+	}
 	evt.mch <- processEventMessage{event: ev}
 	result = event.Consumed
 	return
@@ -102,6 +110,7 @@ func (evt *catchEvent) ConsumeEvent(ev event.IEvent) (result event.ConsumptionRe
 func (evt *catchEvent) NextAction(ctx context.Context, flow Flow) chan IAction {
 	evt.once.Do(func() {
 		sender := evt.tracer.RegisterSender()
+		evt.running.Store(true)
 		go evt.run(ctx, sender)
 	})
 
